@@ -8,6 +8,7 @@ From Coq Require Import ZArith List Bool Lia.
 Import ListNotations.
 From V Require Import Base.Tree Base.Bytes Gen.GenPkg Rx.Model C15.Model Gen.GenC01 C01.Model C01.Spec C01.Proofs
   Gen.GenC12 C12.Model C12.Spec C12.Proofs C12.ProofsTx.
+From V Require C13.Model C13.Closers C13.ProofsClosers.
 Open Scope Z_scope.
 
 (* (1) Routing, frame property.  For EVERY sequence of received packets and closes of other channels — any
@@ -136,6 +137,31 @@ Proof.
   - split; [intros rest; apply setup_ack_ok; reflexivity|]. split; [exact setup_waits | exact setup_fails].
 Qed.
 
+(* (6) Closes of ONE channel by several goroutines (its owner, Conn.Close, ...): every interleaving of the steps of
+   n + 1 calls of Channel.Close on the same logical channel (model: C13/Closers.v - first closed check under the read
+   lock, teardown packet with no lock held, exclusive lock, re-check, unregister, close and drain the queues, unlock).
+   In EVERY reachable state nobody has panicked and the id was deleted from the channel map at most once; some closer
+   can move until all have returned; once all have returned exactly one has performed the teardown, all n others
+   report ErrChannelClosed, the channel is unregistered and no lock is held.  (Statement shared with C13.) *)
+Theorem C12_concurrent_close : forall left n ls,
+  let s := Closers.cexec (Closers.cinit true left (S n)) ls in
+  (Closers.c_panic s = false /\ Closers.c_unregs s <= 1 /\
+   (forall i c, nth_error (Closers.c_pcs s) i = Some (Model.CDone c) -> c = 2 \/ c = (if left then 1 else 0))) /\
+  (Closers.all_returned s = false -> exists i s', Closers.cstep s i = Some s') /\
+  (Closers.all_returned s = true ->
+     ProofsClosers.cnt ProofsClosers.is_win (Closers.c_pcs s) = 1 /\ ProofsClosers.cnt ProofsClosers.lost (Closers.c_pcs s) = Z.of_nat n /\
+     Closers.c_unregs s = 1 /\ Closers.c_registered s = false /\ Closers.c_closed s = true /\
+     Closers.c_wheld s = false /\ Closers.c_pending s = 0) /\
+  (forall ls' s', ProofsClosers.crun_eff (Closers.cinit true left (S n)) ls' = Some s' -> Z.of_nat (length ls') <= 9 * Z.of_nat (S n)).
+Proof. exact ProofsClosers.concurrent_close. Qed.
+
+(* without the re-check under the exclusive lock two closers that both passed the first check delete the id twice and
+   the second one panics (close of a nil channel) *)
+Example C12_concurrent_close_unchecked_refuted :
+  let s := Closers.crun_window false false 2 in
+  Closers.c_panic s = true /\ Closers.c_unregs s = 2.
+Proof. vm_compute. split; reflexivity. Qed.
+
 (* ---- non-vacuity *)
 
 (* two channels (ids 1 and 256), packets interleaved, one packet for an unknown id, channel 256 closed in between:
@@ -175,3 +201,4 @@ Print Assumptions C12_lock_excludes.
 Print Assumptions C12_tx_numbering.
 Print Assumptions C12_channel_numbering.
 Print Assumptions C12_setup_ack.
+Print Assumptions C12_concurrent_close.
